@@ -104,7 +104,7 @@ class Runs:
             flagged, vals = abs(m) > allowed, dv
         else:
             vals = [r["errs"][key] for r in reps if "errs" in r]
-            m, s, allowed, flagged = ens.bias_test(vals, case["alpha"], A_COEF, A_CAP)
+            m, s, allowed, flagged = ens.bias_test(vals, case["alpha"], A_COEF, A_CAP, ens.quadratic_partner_var(key, reps))
         if flagged:
             raise Violation(describe(cell, key, m, s, allowed, len(vals), reps), sig=attribute_trimming(signature(cell, key, m, reps), key, m, reps))
         return {}
@@ -186,7 +186,7 @@ def finish(rec, tier, seed, jobs):
         for key in ok[0]["errs"]:
             if key == "logz":
                 continue  # C02's subject
-            m, s, allowed, fl = ens.bias_test([r["errs"][key] for r in ok], 1e-6, A_COEF, A_CAP)
+            m, s, allowed, fl = ens.bias_test([r["errs"][key] for r in ok], 1e-6, A_COEF, A_CAP, ens.quadratic_partner_var(key, ok))
             table.append({"cell": ci, "family": cell["family"], "kernel": cell["kernel"], "clustering": cell["clustering"], "N": cell["N"],
                           "estimand": key, "mean_err": round(m, 5), "sd": round(s, 5), "allowed": round(allowed, 5), "R": len(ok)})
             if fl:
@@ -222,7 +222,7 @@ def finish(rec, tier, seed, jobs):
                 allowed = float(ens.stats.t.isf(1e-4 / 2, len(dv) - 1)) * s / math.sqrt(len(dv)) + 6.0 * su * su
                 fl = abs(m) > allowed
             else:
-                m, s, allowed, fl = ens.bias_test([r["errs"][key] for r in ok2], 1e-4, A_COEF, A_CAP)
+                m, s, allowed, fl = ens.bias_test([r["errs"][key] for r in ok2], 1e-4, A_COEF, A_CAP, ens.quadratic_partner_var(key, ok2))
             if not fl or (m > 0) != (m1 > 0):
                 rec.classes[f"{CHECK}:stage1-flag-not-confirmed"] += 1
                 continue
